@@ -40,6 +40,12 @@ def scenarios() -> list[dict]:
          "inputs": [["a", arr(["@p", "@p", "@q"])], ["b", arr(["@r", "@r"])]]},
         {"name": "chain", "desc": {"funcs": [fn("f", ["s"], ["y"], None), fn("g", ["y", "s"], ["w"], None)]},
          "inputs": [["s", {"f": "@s", "a": []}]]},
+        # two functions with the SAME Python __name__ (factory-made closures) and equal keyword arguments
+        {"name": "same-pyname", "desc": {"funcs": [dict(fn("f", ["a"], ["y"], {"ins": [{"name": "a", "axes": ["i"]}],
+                                                                                "outs": [{"name": "y", "axes": ["i"]}]}), pyname="step"),
+                                                   dict(fn("g", ["a"], ["w"], {"ins": [{"name": "a", "axes": ["i"]}],
+                                                                                "outs": [{"name": "w", "axes": ["i"]}]}), pyname="step")]},
+         "inputs": [["a", arr(["@p", "@q", "@p"])]]},
     ]
 
 
